@@ -258,6 +258,8 @@ func invalidValue(k string, r *hx.Rand) string {
 		return []string{"yes", "2", "tRUE", "-", "tr"}[r.Intn(5)]
 	case k == "d":
 		return []string{"5", "1x", "s", "--", "1 s"}[r.Intn(5)]
+	case k == "f32": // incl. values a float64 holds but a float32 does not: ParseFloat(s, 32) must report the range error
+		return []string{"abc", "1e400", "--", "1.5.2", "e1", "3.5e38", "-3.5e38", "1e39", "3.4028236e38"}[r.Intn(9)]
 	case k[0] == 'f':
 		return []string{"abc", "1e400", "--", "1.5.2", "e1"}[r.Intn(5)]
 	case k[0] == 'i':
